@@ -65,7 +65,9 @@ class Contract:
         self.fresh_result = kw.pop("fresh_result", False)
         self.old_params = kw.pop("old_params", True)
         self.static_only = kw.pop("static_only", False)
-        self.aliases = kw.pop("aliases", {})       # clause name -> parameter name (overrides that renamed parameters)
+        self.aliases = kw.pop("aliases", {})
+        self.ghost_after = kw.pop("ghost_after", {})
+        self.reveal = set(kw.pop("reveal", []))   # "<callee attr>@<static ordinal>" -> [ghost statements (python source)]       # clause name -> parameter name (overrides that renamed parameters)
         self.heapfn = kw.pop("heapfn", False)     # pure method used as a function of (heap, receiver, args): Dafny-style
         self.value = kw.pop("value", None)        # closed form of the result (pure): callers use the expression itself
         if self.value is not None:
@@ -118,6 +120,17 @@ def macro(name, params, text):
     MACROS[name] = (params, ast.parse(text, mode="eval").body, text)
 
 
+OPAQUE = {}     # name -> dict(stateful)
+
+
+def opaque(name, params, text, stateful=False):
+    """a predicate whose definition is hidden from the solver unless the function's contract says
+    reveal=[name]; stateless predicates rely on the immutability of the fields they read (checked by
+    pyvc.check: those fields are written only by constructors)"""
+    macro(name, params, text)
+    OPAQUE[name] = dict(stateful=stateful)
+
+
 class Axiom:
     def __init__(self, name, text, types, note):
         self.name = name
@@ -168,6 +181,7 @@ def refine(qual, base, **kw):
     kw["refines"] = base
     kw.setdefault("pure", b.pure)
     kw.setdefault("heapfn", b.heapfn)
+    kw["reveal"] = list(set(kw.get("reveal", [])) | b.reveal)
     if b.value is not None:
         kw.setdefault("value", b.value)
     return fn(qual, **kw)
@@ -196,7 +210,8 @@ def canary(base, name, tags, **extra):
     c = Contract(f"{base}#canary_{name}", **{"self": b.self_ty}, params=dict(b.params),
                  returns=b.returns, requires=list(b.requires) + list(extra.get("requires", [])),
                  ensures=list(extra.get("ensures", [])), modifies=list(extra.get("modifies", b.modifies)),
-                 loops=extra.get("loops", b.loops), tags=tags, pure=b.pure, locals={k: v for k, v in b.locals.items()})
+                 loops=extra.get("loops", b.loops), tags=tags, pure=b.pure, locals={k: v for k, v in b.locals.items()},
+                 reveal=list(b.reveal), ghost_after=b.ghost_after)
     CONTRACTS[c.qual] = c
     return c
 
